@@ -10,7 +10,7 @@ Init == stage = 0 /\ scn = <<>> /\ out = <<>>
 Pick(n, S) == stage = n /\ \E x \in S : scn' = Append(scn, x) /\ stage' = n + 1 /\ UNCHANGED out
 Finish(n, v) == stage = n /\ out' = v /\ stage' = 100 /\ UNCHANGED scn
 
-Containers == {"array-int", "array-uint", "array-float", "sample"}
+Containers == {"array-int", "array-uint", "array-float", "sample", "sample-float-be"}     \* -be: single-precision file, big-endian
 (* ---- start_end: scn = <<N, container, ns, ne>> *)
 SENext == \/ Pick(0, 0..4) \/ Pick(1, Containers) \/ Pick(2, -1..5) \/ Pick(3, -1..5)
           \/ Finish(4, StartEnd(scn[1], scn[3], scn[4]))
@@ -25,9 +25,9 @@ HLForms == {ChForm("absent", <<1, 2>>, <<0, 0>>), ChForm("pos", <<1>>, <<0>>), C
             ChForm("pos", <<2>>, <<2>>), ChForm("pos", <<1>>, <<2>>), ChForm("list", <<2, 1>>, <<2, 0>>)}
 Named(f) == \E i \in 1..Len(f.named) : f.named[i] = 1
 HLNext == \/ Pick(0, HLEvents) \/ Pick(1, Containers)
-          \/ stage = 2 /\ \E f \in HLForms : (Named(f) => scn[2] = "sample") /\ scn' = Append(scn, f) /\ stage' = 3 /\ UNCHANGED out
+          \/ stage = 2 /\ \E f \in HLForms : (Named(f) => scn[2] \in {"sample", "sample-float-be"}) /\ scn' = Append(scn, f) /\ stage' = 3 /\ UNCHANGED out
           \/ Pick(3, {NONE, 5, 7}) \/ Pick(4, {NONE, 0, 1})
-          \/ Finish(5, HighLow(scn[1], scn[3].xs, scn[4], scn[5], scn[2] = "sample", <<<<0, 7>>, <<0, 7>>>>))
+          \/ Finish(5, HighLow(scn[1], scn[3].xs, scn[4], scn[5], scn[2] \in {"sample", "sample-float-be"}, <<<<0, 7>>, <<0, 7>>>>))
 
 (* ---- ellipse: 3 channels; scn = <<events, container, chform, <<cx, cy, a, b>>>> *)
 ELPts == {<<x, y, 3>> : x \in {1, 2, 3, 4, 5, 7}, y \in {1, 2, 3, 4, 5}}
@@ -36,7 +36,7 @@ ELForms == {ChForm("list", <<1, 2>>, <<0, 0>>), ChForm("list", <<2, 1>>, <<1, 0>
             ChForm("list", <<1>>, <<0>>), ChForm("list", <<1, 2, 3>>, <<0, 0, 0>>), ChForm("list", <<1, 2>>, <<2, 2>>)}
 ELParams == {<<3, 3, 2, 1>>, <<3, 3, 1, 2>>, <<3, 3, 2, 2>>, <<4, 2, 4, 1>>, <<3, 3, 1, 1>>}
 ELNext == \/ Pick(0, ELEvents) \/ Pick(1, Containers)
-          \/ stage = 2 /\ \E f \in ELForms : (Named(f) => scn[2] = "sample") /\ scn' = Append(scn, f) /\ stage' = 3 /\ UNCHANGED out
+          \/ stage = 2 /\ \E f \in ELForms : (Named(f) => scn[2] \in {"sample", "sample-float-be"}) /\ scn' = Append(scn, f) /\ stage' = 3 /\ UNCHANGED out
           \/ Pick(3, ELParams)
           \/ Finish(4, EllipseAxis(scn[1], scn[3].xs, scn[4][1], scn[4][2], scn[4][3], scn[4][4]))
 
@@ -45,8 +45,8 @@ LGCodes == {UNDEF, 0, 1, 2, 3}
 LGPts == {<<x, y, 1>> : x \in LGCodes, y \in LGCodes}
 LGEvents == UNION {[1..n -> LGPts] : n \in 0..MaxN}
 LGParams == {<<2, 1, 2, 1>>, <<1, 1, 1, 1>>, <<2, 2, 2, 2>>, <<1, 2, 1, 2>>, <<3, 0, 1, 1>>}
-LGNext == \/ Pick(0, LGEvents) \/ Pick(1, {"array-int", "array-float", "sample"})
-          \/ stage = 2 /\ \E f \in ELForms : (Named(f) => scn[2] = "sample") /\ scn' = Append(scn, f) /\ stage' = 3 /\ UNCHANGED out
+LGNext == \/ Pick(0, LGEvents) \/ Pick(1, {"array-int", "array-float", "sample", "sample-float-be"})
+          \/ stage = 2 /\ \E f \in ELForms : (Named(f) => scn[2] \in {"sample", "sample-float-be"}) /\ scn' = Append(scn, f) /\ stage' = 3 /\ UNCHANGED out
           \/ Pick(3, LGParams)
           \/ Finish(4, EllipseLog(scn[1], scn[3].xs, scn[4][1], scn[4][2], scn[4][3], scn[4][4]))
 
